@@ -22,6 +22,7 @@ POOL = {
  "rawfilter": "Raw `<b>bold</b>`{=html} and `\\textbf{x}`{=latex} plus x^2^ and H~2~O.\n\n```{=html}\n<div>raw</div>\n```\n",
  "toc": "{{TOC}}\n\n# One #\n\n## Two ##\n\nText.\n\n# Three #\n\n[One][] [Two][]\n",
  "lists": "1. one\n2. two\n\n   para in two\n\n* a\n* b\n\n> quote\n> more\n\nTerm\n: Definition\n\n```\nfenced\n```\n",
+ "assets": "css: style.css\n\n![one *1*](img.png \"Title\" width=40px) text ![two](b.png) and ![three](c.png)\n\n![fig][ref]\n\n[ref]: pic.jpg \"T\" class=x\n",
  "images": "![alt *text*](img.png \"Title\" width=40px)\n\n![fig][ref]\n\n[ref]: pic.jpg \"T\" class=x\n\n[link](http://a.b/?x=1&y=2) <http://auto.link>\n",
  "plain": "Just a paragraph.\n",
  "math": "Inline \\\\(x^2\\\\) and $y_1$ and\n\n\\\\[ E=mc^2 \\\\]\n\n$$z$$\n",
